@@ -106,11 +106,11 @@ def _concrete(I, ids):
 
 
 # ------------------------------------------------------------------ autosort
-def unit_autosort(n, first=None, tier=None, seed=None):
+def unit_autosort(n, first=None, tier=None, seed=None, prop="C14"):
     meta = read_meta()
     uni = list(meta)
     name = f"autosort.n{n}" + (f".{first}" if first else "")
-    S = Session("C14", "autosort", f"{MOD}:autosort")
+    S = Session(prop, "autosort", f"{MOD}:autosort")
     S.unit_name = "autosort"
     st = {}
 
